@@ -134,6 +134,8 @@ def write_dataset(root, world, storage):
         )
         ex, ey, ez, eyaw = s["ego"]
         epitch, eroll = s.get("ego_rp", (0.0, 0.0))
+        lags = storage.get("stamp_lag_us")
+        t_rec = int(s["t"]) + (int(lags[i % len(lags)]) if lags else 0)   # when the sensor records of this sample were stamped
         for sn, sen in enumerate(sensors):
             tok = "sd%03d_%05d" % (sn, i)
             off = storage.get("sensor_ego_offset") if sn > 0 else None
@@ -146,7 +148,7 @@ def write_dataset(root, world, storage):
                     "token": "ego" + tok,
                     "translation": [tx, ty, tz],
                     "rotation": list(rm.q_from_ypr(eyaw, epitch, eroll)),
-                    "timestamp": int(s["t"]),
+                    "timestamp": t_rec,
                 }
             )
             sd_rows.append(
@@ -159,7 +161,7 @@ def write_dataset(root, world, storage):
                     "fileformat": "bin" if sen["modality"] != "camera" else "jpg",
                     "width": 1280 if sen["modality"] == "camera" else 0,
                     "height": 720 if sen["modality"] == "camera" else 0,
-                    "timestamp": int(s["t"]),
+                    "timestamp": t_rec,
                     "is_key_frame": True,
                     "next": "sd%03d_%05d" % (sn, i + 1) if i + 1 < len(samples) else "",
                     "prev": "sd%03d_%05d" % (sn, i - 1) if i > 0 else "",
